@@ -78,7 +78,8 @@ def _raise(site, msg):
 _NS2 = {"first": inner.first}
 exec(compile("def via(msg):\n    first(msg)\n", "<generated-no-source-2>", "exec"), _NS2)
 
-IGNORES = [None, r".*tracegen/lib/", r".*tracegen/inner", r"^<generated-no-source-2>$", r".*/lnk/"]
+IGNORES = [None, r".*tracegen/lib/", r".*tracegen/inner", r"^<generated-no-source-2>$", r".*/lnk/", r".*", r"(?i).*TRACEGEN/LIB/"]
+# (the last two: a pattern that matches EVERY frame - class name and message are shown all the same; a pattern with a global inline flag)
 # frames whose code was compiled under unusual file names
 _NS3, _NS4 = {}, {}
 exec(compile("def emptyname(msg):\n    raise ValueError(msg)\n", "", "exec"), _NS3)
@@ -173,7 +174,7 @@ def _check_render(out, site, cls, line, msg, verbosity, simple, utf8, ignore):
     if verbosity >= 1 and site not in ("nosource", "library", "nosource_mid", "blank_first", "emptyname", "relname", "symlinked", "mlstring"):
         listed_outer = "tracegen/lib/outer.py" in out
         listed_inner_frames = len(re.findall(r"tracegen/inner\.py:\d+ in ", out))
-        if ignore == IGNORES[1] and verbosity < 3 and listed_outer:
+        if ignore in (IGNORES[1], IGNORES[6]) and verbosity < 3 and listed_outer:
             return False
         if (ignore is None or verbosity == 3) and not listed_outer:
             return False                               # (sanity: without a pattern, or at debug verbosity, the frame is listed)
@@ -212,10 +213,11 @@ def _render_case(site_i, msg_i, verbosity, simple, utf8, ignore_i, second_ignore
 
 def render(msg_i: int, verbosity: int, simple: bool, utf8: bool, ignore_i: int) -> bool:
     """
-    pre: 0 <= msg_i < len(MESSAGES) and 0 <= verbosity <= 3 and 0 <= ignore_i <= 4
+    pre: 0 <= msg_i < len(MESSAGES) and 0 <= verbosity <= 3 and 0 <= ignore_i <= 6
+    pre: PART.get("simple") is None or simple == PART["simple"]
     post: _
     """
-    return isolated(_render_case, PART["site"], conc_int(msg_i, 0, len(MESSAGES) - 1), conc_int(verbosity, 0, 3), conc_bool(simple), conc_bool(utf8), conc_int(ignore_i, 0, 4), None, 0)
+    return isolated(_render_case, PART["site"], conc_int(msg_i, 0, len(MESSAGES) - 1), conc_int(verbosity, 0, 3), conc_bool(simple), conc_bool(utf8), conc_int(ignore_i, 0, 6), None, 0)
 
 
 def render_twice(site_i: int, verbosity: int, ignore_i: int, second_ignore_i: int, second_verbosity: int) -> bool:
@@ -304,8 +306,9 @@ def conditions(tier):
                           "bounds": "source of %d lines; failing line in [%d,%d], lines_before and lines_after symbolic ints in [0,6]" % (n, lo, hi)})
     conds.append({"name": "snippet_twin", "fn": snippet_twin, "timeout": t, "expect": "refute", "part": {"src": 2}, "bounds": "reachability twin"})
     for si, (site, cls, line) in enumerate(SITES):
-        conds.append({"name": "render[%s]" % site, "fn": render, "timeout": t, "part": {"site": si},
-                      "bounds": "%s raised at %s; 8 messages x 4 verbosities x simple x UTF-8 x 5 ignore patterns (none, library path, the file itself, a pseudo file name, a path through a symbolic link)" % (cls, "inner.py:%d" % line if line else "code without source")})
+      for simple in (False, True):
+        conds.append({"name": "render[%s%s]" % (site, ",simple" if simple else ""), "fn": render, "timeout": t, "part": {"site": si, "simple": simple},
+                      "bounds": "%s raised at %s; 8 messages x 4 verbosities x simple x UTF-8 x 7 ignore patterns (none, library path, the file itself, a pseudo file name, a path through a symbolic link, match-everything, one with a global inline flag)" % (cls, "inner.py:%d" % line if line else "code without source")})
     for si in range(10):
         conds.append({"name": "render_twice[%s]" % SITES[si][0], "fn": render_twice, "timeout": t, "part": {"site": si},
                       "bounds": "raise site %s; two renders in one process (forked per case) with independent ignore patterns and verbosities" % SITES[si][0]})
